@@ -325,6 +325,9 @@ func buildOverlayRAC(root, pkgDir string) (map[string][]byte, error) {
 				if a.Assume {
 					kind = "#assume:"
 				}
+				if a.Ghost != "" {
+					continue // ghost updates have no run-time meaning
+				}
 				if a.Each {
 					if !strings.Contains(a.Text, "old(") && racExecutable(a.Text) {
 						for _, at := range stmtsContaining(fd.Body, src, off, a.After) {
